@@ -310,10 +310,16 @@ func (s *clientSocket) Disconnect() {
 	lateConnected := s.state == clientSocketConnStateConnected
 	if late {
 		s.state = clientSocketConnStateDisconnected
+		// A `Connect` call that overlaps with this call has put the socket back
+		// on the manager's events. See above.
+		s.deregisterSubEvents()
 	}
 	s.stateMu.Unlock()
 	if lateConnected && s.manager.connected() {
 		s.sendControlPacket(parser.PacketTypeDisconnect, nil)
+	}
+	if late {
+		s.manager.destroy(s)
 	}
 
 	if connected || late {
